@@ -96,6 +96,13 @@ struct History {
   struct LastEval { bool valid = false; int api = 0, idx = 0; long double args[4] = {0, 0, 0, 0}; } last_eval[2];
 
   void fail(const std::string &prop, const std::string &msg) { fails.push_back({prop, msg, step}); }
+  // handle of an init operation: ten fixed strings, plus two slots that produce a handle spelled exactly like a catalogue name (the idiom of the
+  // library's own tests, masa_init("euler_1d","euler_1d")): slot 10 names the handle after the solution of this call; slot 11 looks for a live
+  // handle that is spelled like its own solution and initialises ANOTHER handle with that same solution (s is redirected), else behaves like slot 10
+  template <class RegT> std::string init_handle(const Op &o, std::string &s, const RegT &R) { unsigned k = (unsigned)o.h % (NHANDLES + 2); if (k < (unsigned)NHANDLES) return HANDLES[k];
+    if (k == (unsigned)NHANDLES + 1) for (auto &kv : R.handles) if (kv.first == kv.second.name && std::find(cfg.catalogue.begin(), cfg.catalogue.end(), kv.first) != cfg.catalogue.end()) { s = kv.first; cls["init_other_handle_with_solution_of_name_like_handle"]++; return HANDLES[(unsigned)o.idx % NHANDLES]; }
+    cls["init_handle_spelled_like_solution"]++; return s; }
+
   bool failed() const { return !fails.empty(); }
 
   // ---------------------------------------------------------------- library access helpers (selected solution of precision P)
@@ -184,7 +191,7 @@ struct History {
     auto selm = [&]() -> SolModel * { return R.has_selected ? &R.handles[R.selected] : nullptr; };
     auto pname = [&](SolModel *m, bool &valid) -> std::string { valid = true; if (!m || m->params.empty() || o.n % 7 == 0) { valid = false; static const char *bad[] = {"", "no_such_parameter", "A_X", "gamma ", " L", "k_00"}; std::string b = bad[(unsigned)o.p % 6]; if (m) for (auto &kv : m->params) if (kv.first == b) b += "_"; return b; } return m->params[(unsigned)o.p % m->params.size()].first; };
     switch (o.code) {
-      case OP_INIT: { std::string h = HANDLES[(unsigned)o.h % NHANDLES]; std::string s = cfg.catalogue[(unsigned)o.s % cfg.catalogue.size()]; std::string sp = spell_name(s, o); trace.back() += " '" + h + "' <- " + s + (sp != s ? " spelled '" + sp + "'" : ""); if (sp != s) cls["init_decorated_name"]++; bool re = R.handles.count(h); if (re) cls["reinit_existing_handle"]++; if (re && R.handles[h].name == s) cls["reinit_same_type"]++;
+      case OP_INIT: { std::string s = cfg.catalogue[(unsigned)o.s % cfg.catalogue.size()]; std::string h = init_handle(o, s, R); std::string sp = spell_name(s, o); trace.back() += " '" + h + "' <- " + s + (sp != s ? " spelled '" + sp + "'" : ""); if (sp != s) cls["init_decorated_name"]++; bool re = R.handles.count(h); if (re) cls["reinit_existing_handle"]++; if (re && R.handles[h].name == s) cls["reinit_same_type"]++;
           for (auto &kv : R.handles) if (kv.first != h && kv.second.name == s) cls["two_handles_same_type"]++;
           int rc; { Quiet q; rc = masa_init<Scalar>(h, sp); } if (rc != 0) fail("C12", "masa_init returned " + std::to_string(rc));
           R.selected = h; R.has_selected = true; SolModel m = fresh_model<Scalar>(P, s); R.handles[h] = m;
@@ -234,7 +241,7 @@ struct History {
   static double ccb(double T) { return 2.5 + T * 1e-4; }
   void step_c(const Op &o) { Registry &R = reg[0]; using namespace MASA; auto selm = [&]() -> SolModel * { return R.has_selected ? &R.handles[R.selected] : nullptr; };
     switch (o.code) {
-      case OP_CINIT: { std::string h = HANDLES[(unsigned)o.h % NHANDLES]; std::string s = cfg.catalogue[(unsigned)o.s % cfg.catalogue.size()]; std::string sp = spell_name(s, o); trace.back() += " '" + h + "' <- " + s + (sp != s ? " spelled '" + sp + "'" : ""); if (sp != s) cls["init_decorated_name"]++; int rc; { Quiet q; rc = ::masa_init(h.c_str(), sp.c_str()); } if (rc != 0) fail("C17", "C masa_init returned " + std::to_string(rc));
+      case OP_CINIT: { std::string s = cfg.catalogue[(unsigned)o.s % cfg.catalogue.size()]; std::string h = init_handle(o, s, R); std::string sp = spell_name(s, o); trace.back() += " '" + h + "' <- " + s + (sp != s ? " spelled '" + sp + "'" : ""); if (sp != s) cls["init_decorated_name"]++; int rc; { Quiet q; rc = ::masa_init(h.c_str(), sp.c_str()); } if (rc != 0) fail("C17", "C masa_init returned " + std::to_string(rc));
           R.selected = h; R.has_selected = true; R.handles[h] = fresh_model<double>(0, s); std::string nm; { Quiet q; masa_get_name<double>(&nm); } if (nm != s) fail("C17", "C masa_init('" + h + "','" + s + "') selected '" + nm + "' in the double registry"); cls["c_init"]++; break; }
       case OP_CSELECT: { if (R.handles.empty()) break; auto it = R.handles.begin(); std::advance(it, (unsigned)o.h % R.handles.size()); int rc; { Quiet q; rc = ::masa_select_mms(it->first.c_str()); } R.selected = it->first; R.has_selected = true; std::string nm; { Quiet q; masa_get_name<double>(&nm); } if (nm != it->second.name || rc != 0) fail("C17", "C masa_select_mms('" + it->first + "') did not select that handle of the double registry"); break; }
       case OP_CSET: { SolModel *m = selm(); if (!m || m->params.empty()) break; bool valid = o.n % 7 != 0; std::string n = valid ? m->params[(unsigned)o.p % m->params.size()].first : "no_such_parameter"; double v = decode_value<double>(o.v[0]); { Quiet q; ::masa_set_param(n.c_str(), v); } if (valid) for (auto &kv : m->params) if (kv.first == n) kv.second = v; cls["c_set"]++;
